@@ -24,11 +24,12 @@
 namespace models {
 using namespace Pomerol;
 
-enum { ATOM = 0, DIMER = 1, KANAMORI = 2, CHAIN3 = 3, ATOM_FIELD = 4, DIMER_FIELD = 5, ATOMS2 = 6, EXCH2 = 7, T2G = 8, N_MODELS = 9 };  // ATOMS2: two sites NOT connected by hopping
+enum { ATOM = 0, DIMER = 1, KANAMORI = 2, CHAIN3 = 3, ATOM_FIELD = 4, DIMER_FIELD = 5, ATOMS2 = 6, EXCH2 = 7, T2G = 8, TINYDIMER = 9, ATOMS3 = 10, N_MODELS = 11 };
+// TINYDIMER: dimer whose only S_z-breaking term is a spin-flip hopping of amplitude 1e-6 .. 1e-13; ATOMS3: three isolated atoms (6 modes, every n_i conserved)  // ATOMS2: two sites NOT connected by hopping
 
-inline int nmodes(int model) { return model == ATOM || model == ATOM_FIELD ? 2 : (model == CHAIN3 || model == T2G) ? 6 : 4; }
+inline int nmodes(int model) { return model == ATOM || model == ATOM_FIELD ? 2 : (model == CHAIN3 || model == T2G || model == ATOMS3) ? 6 : 4; }
 inline bool is_big(int model) { return model == CHAIN3 || model == T2G; }   // 64-dimensional Fock space: thorough tier only
-inline const char* model_name(int m) { static const char* n[] = {"atom", "dimer", "kanamori", "chain3", "atom+field", "dimer+field", "two isolated atoms", "two sites with spin exchange", "t2g site (3 orbitals, Kanamori)"}; return n[m % N_MODELS]; }
+inline const char* model_name(int m) { static const char* n[] = {"atom", "dimer", "kanamori", "chain3", "atom+field", "dimer+field", "two isolated atoms", "two sites with spin exchange", "t2g site (3 orbitals, Kanamori)", "dimer with a tiny spin-flip term", "three isolated atoms"}; return n[m % N_MODELS]; }
 
 struct Params { double U[3], eps[3], t[2], J, h; };
 
@@ -70,12 +71,19 @@ struct Stage0 {
                 LatticePresets::addCoulombS(&L, "A", p.U[0], p.eps[0]);
                 if (model == ATOM_FIELD) LatticePresets::addMagnetization(&L, "A", p.h);
                 break;
-            case DIMER: case DIMER_FIELD: case ATOMS2:
+            case ATOMS3:
+                L.addSite(new Lattice::Site("A", 1, 2)); L.addSite(new Lattice::Site("B", 1, 2)); L.addSite(new Lattice::Site("C", 1, 2));
+                LatticePresets::addCoulombS(&L, "A", p.U[0], p.eps[0]);
+                LatticePresets::addCoulombS(&L, "B", p.U[1], p.eps[1]);
+                LatticePresets::addCoulombS(&L, "C", p.U[2], p.eps[2]);
+                break;
+            case DIMER: case DIMER_FIELD: case ATOMS2: case TINYDIMER:
                 L.addSite(new Lattice::Site("A", 1, 2)); L.addSite(new Lattice::Site("B", 1, 2));
                 LatticePresets::addCoulombS(&L, "A", p.U[0], p.eps[0]);
                 LatticePresets::addCoulombS(&L, "B", p.U[1], p.eps[1]);
                 if (model != ATOMS2) LatticePresets::addHopping(&L, "A", "B", hop(p.t[0], p.h));
                 if (model == DIMER_FIELD) LatticePresets::addMagnetization(&L, "A", p.h);
+                if (model == TINYDIMER) LatticePresets::addHopping(&L, "A", "A", std::pow(10.0, -(6 + (int)(mp % 8))), 0, 0, up, down);   // breaks S_z by a hair
                 break;
             case KANAMORI:
                 L.addSite(new Lattice::Site("A", 2, 2));
